@@ -438,10 +438,25 @@ func runC08(c *an.Ctx) {
 				okD := an.Guarded(sp, i, an.EdgesWhere(sp, func(f an.Cmp) bool {
 					return strings.HasPrefix(f.L, "decodeMessage(") && strings.HasSuffix(f.L, ",&local:filterTag)") && f.Op == "==" && f.R == "c:nil"
 				}))
+				// through a predicate helper the facts of every way it returns true sit on the accepting edge itself
+				onEdge := func(pred func(an.Cmp) bool) bool {
+					for _, f := range an.EdgeFacts(sp)[e] {
+						if pred(f) {
+							return true
+						}
+					}
+					return false
+				}
+				okD = okD || onEdge(func(f an.Cmp) bool {
+					return strings.HasPrefix(f.L, "decodeMessage(") && strings.HasSuffix(f.L, ",&local:filterTag)") && f.Op == "==" && f.R == "c:nil"
+				})
 				c.Add(okD, "R2", sn+":tag-arm:decoded", i, "the pattern test runs only after the tag filter decoded without error", "edge dominance")
 				okE := an.Guarded(sp, i, an.EdgesWhere(sp, func(f an.Cmp) bool {
 					return strings.HasPrefix(f.L, "regexp.MatchString(") && strings.HasSuffix(f.L, "#1") && f.Op == "==" && f.R == "c:nil"
 				}))
+				okE = okE || onEdge(func(f an.Cmp) bool {
+					return strings.HasPrefix(f.L, "regexp.MatchString(") && strings.HasSuffix(f.L, "#1") && f.Op == "==" && f.R == "c:nil"
+				})
 				c.Add(okE, "R2", sn+":tag-arm:compiled", i, "a match counts only when the pattern compiled (error nil)", "edge dominance")
 			}
 			for _, call := range an.CallsTo(sp, "regexp.MatchString") {
